@@ -87,16 +87,17 @@ Theorem C13_former_counterexamples_hold :
 Proof. exact repaired_witnesses_hold. Qed.
 Print Assumptions C13_former_counterexamples_hold.
 
-(* sync_superset (new job) — /repo as it is: a job missing in the destination is cloned whole, sub-directories
-   included whatever `recursive` says: every path of the source job none of whose names matches a user exclude
-   pattern (the state point and the document never count as excluded) leads to the same bytes; for a file that
-   is `File c NOW`, for a directory the copy of the directory without the excluded names *)
-Theorem C13_cloned_job_exact : forall frepr o id sd ws p,
+(* sync_superset (new job) — /repo as it is (74ea1a0, 618e7cc): a job missing in the destination is cloned whole,
+   sub-directories included whatever `recursive` says: every path k :: q of the source job leads to the same bytes
+   unless the patterns exclude a name on it — directly in the job directory a user pattern that is not one of the job's
+   own two files (clone_excl), below it any user pattern; for a file the result is `File c NOW`, for a directory the copy
+   of the directory without the names the user patterns match *)
+Theorem C13_cloned_job_exact : forall frepr o id sd ws k q,
   o_dry_run o = false -> alookup id ws = None ->
-  forallb (fun k => negb (clone_excl o k)) p = true ->
-  lookup_path (id :: p) (Dir (fst (clone_or_sync frepr cfg_current o (id, Dir sd) ws)))
-  = match lookup_path p (Dir sd) with
-    | Some y => Some (touch (prune (clone_excl o) y))
+  clone_excl o k = false -> forallb (fun n => negb (o_exclude o n)) q = true ->
+  lookup_path (id :: k :: q) (Dir (fst (clone_or_sync frepr cfg_current o (id, Dir sd) ws)))
+  = match lookup_path (k :: q) (Dir sd) with
+    | Some y => Some (touch (prune (o_exclude o) y))
     | None => None
     end.
 Proof. exact clone_paths_current. Qed.
